@@ -3047,3 +3047,20 @@ M("C01", "lonely-merge-single-path", NODE,
 T("C07", "twin-break-set-not-reduced-by-scc", CLC,
   "    break_nodes.difference_update(scc_nodes)\n", "",
   "both sources of break nodes already exclude the events of the SCC")
+
+M("C05", "rotate-head-from-second-last", WALK,
+  "        self.merge_nodes = [self.merge_nodes[-1]] + self.merge_nodes[:-1]",
+  "        self.merge_nodes = [self.merge_nodes[-2]] + self.merge_nodes[:-1]",
+  "R5.10", "the merge node that moves to the front is not the one of the path that moves")
+M("C01", "merge-counter-never-counts", WALK,
+  "        if self.merge_nodes[-1] == potential_merge_node:\n            self.merge_counter += 1",
+  "        if self.merge_nodes[-1] != potential_merge_node:\n            self.merge_counter += 1",
+  "R1.18", "the stuck counter counts changes instead of repetitions")
+M("C05", "lonely-path-closed-at-lonely-merge", WALK,
+  "            if node != logic_block_holder.logic_node.lonely_merge:\n                return True",
+  "            if node == logic_block_holder.logic_node.lonely_merge:\n                return True",
+  "R5.16", "the lonely-merge path is closed exactly at the node it should run through")
+M("C01", "event-node-opens-its-own-block", WALK,
+  "    if previous_node_class.operator is None:\n        logic_node = previous_node_class.outgoing_logic[0]",
+  "    if previous_node_class.operator is not None:\n        logic_node = previous_node_class.outgoing_logic[0]",
+  "R1.23", "an event node is taken for the gate it owns and vice versa")
